@@ -71,7 +71,7 @@ def obligations(tier):
                       nns=nns, nreq=2, maxinf=maxinf, extra=["C34_J=%d" % j, "C34_TWICE=%d" % twice, "C34_BOTH=%d" % both]))
     # ---- timeouts (UDP)
     ts = [(1, 0, 1, 2, 2), (2, 1, 1, 2, 2), (2, 0, 0, 1, 1), (1, 0, 1, 2, 1)]
-    if full: ts += [(2, 0, 1, 2, 2), (2, 1, 0, 1, 2), (1, 1, 0, 1, 1), (2, 0, 0, 2, 1)]
+    if full: ts += [(2, 0, 1, 2, 2), (2, 1, 0, 1, 2), (1, 0, 1, 1, 1), (2, 0, 0, 2, 1)]
     for (att, j, j2, nns, maxinf) in ts:
         obs.append(ob("timeout_att%d_j%d%d_ns%d_inf%d" % (att, j, j2, nns, maxinf), "harness_timeout",
                       "timer of request %d, then of request %d fires: give up (DNS_ERR_TIMEOUT exactly once) iff the request was sent `attempts` times, else "
@@ -107,7 +107,7 @@ def obligations(tier):
     # ---- free
     for fail in (1, 0):
         for c0 in (0, 1):
-            for maxinf in ((1, 2) if full else ((1,) if c0 else (2,))):
+            for maxinf in ((1, 2) if (full or not c0) else (1,)):     # inf1 without cancel: request 1 is still WAITING when the base is freed
                 obs.append(ob("free_fail%d_cancel%d_inf%d" % (fail, c0, maxinf), "harness_free",
                               "evdns_base_free(fail_requests=%d)%s: %s; no event left pending, sockets closed, scheduled callbacks touch no freed "
                               "memory, no leak" % (fail, " after request 0 was cancelled" if c0 else "",
